@@ -1,4 +1,5 @@
 """C07 nonlocal and global reach the binding scoping prescribes."""
+from hv import core  # noqa: E402
 import itertools
 import multiprocessing as mp
 
@@ -11,10 +12,16 @@ from hv.symx import core as sx
 from hv.symx.core import E, S
 
 META = {
-    "engine": "symx",
-    "level": "other",
-    "technique": "contract-based: (1) postcondition of ResolveOuterVars.visit_OuterVar against an independent resolver spec, "
-                 "decided by complete exploration of the real method over every enclosing-scope chain of depth <= 4 (scope "
+    "engine": "pyvc+symx",
+    "level": "proof",
+    "technique": "contract-based deductive verification of ResolveOuterVars.visit_OuterVar (VCs from its source AST, z3): an "
+                 "inductive loop invariant over a scope chain of arbitrary length with uninterpreted scope kinds and contents "
+                 "(ghost Seen(i, n) = `one of the scopes 1..i binds n as a function or let scope`, defined recursively) gives: "
+                 "`global` lists exactly the declared names no enclosing function or let binds - class bodies never count - and "
+                 "only when all of them are module-level variables, `nonlocal` exactly the others, both in declaration order "
+                 "(a list made from a set has no order in the encoding), for 1..3 declared names; plus (1) the same "
+                 "postcondition against an independent resolver spec by "
+                 "complete exploration of the real method over every enclosing-scope chain of depth <= 4 (scope "
                  "kinds function / class / let, every assignment of the declared names to scopes, every module-level set) - "
                  "the property's own depth bound; (2) contracts of define_nonlocal (declaration after use is a Hy syntax "
                  "error) and of compile_global_or_nonlocal on the real rule; (3) whole-compiler postcondition: skeleton "
@@ -26,7 +33,7 @@ META = {
             "to Python's own error. Skeleton programs (spines of fn / class / let of depth 1..4 with definitions at varying "
             "levels, the declaration in the innermost function, assignment after it, reads at every level afterwards) "
             "behave exactly like the reference program; declaring a name after using it is a Hy syntax error.",
-    "note": "Level `other`: decided by complete enumeration of a finite domain (the property's own depth bound), not by a deductive proof. Trusted: the reference resolver and renamer; CPython as executor. Depth 4 is the property's own bound; within it "
+    "note": "Proved: visit_OuterVar for every chain (unbounded depth, arbitrary sets), 1..3 declared names. Exhaustive over a finite domain (not proved): the whole-compiler skeleton programs and the declaration contracts. Trusted: Python's own meaning of the emitted global/nonlocal statements; z3; the reference resolver and renamer; CPython as executor. Depth 4 is the property's own bound; within it "
             "the exploration of visit_OuterVar is exhaustive (quick: depth 3). The declaration is placed at the start of a "
             "function body (not directly inside the let that binds the name, which Hy rejects and the docs do not define).",
 }
@@ -58,7 +65,7 @@ def outervar(chk, maxd):
     CHAINS[:] = list(ov.chains(maxd))
     import gc; gc.collect(); gc.freeze()
     with mp.get_context("fork").Pool(chk.jobs) as pool:
-        res = pool.map(_ov, range(len(CHAINS)), chunksize=256)
+        res = core.pmap(pool, _ov, range(len(CHAINS)), chunksize=256)
     bad = {}
     for i, b in res:
         chk.case(("chain", i))
@@ -108,8 +115,22 @@ def declaration_contracts(chk):
            "structural", "proved", detail=str(getattr(g, "names", None)))
 
 
+def _concrete_outervar(name, model):
+    """Replay for a refuted VC of visit_OuterVar: the smallest real scope chain on which the real method and the resolver
+    spec disagree (the SMT counter-model itself is a state of the abstract chain, possibly thousands of scopes long)."""
+    for ks, sets, g in ov.chains(2):
+        for names in NAMESETS:
+            want, got = ov.spec(names, ks, sets, g), ov.run_real(names, ks, sets, g)
+            if want != got:
+                return {"confirmed": True, "input": {"scopes (innermost first)": ks, "bound names": sets, "module-level": g, "declared": names},
+                        "observed": got, "expected": want}
+    return None
+
+
 def run(chk):
     quick = chk.tier == "quick"
+    from hv.pyvc import targets
+    targets.c07_visit_outervar(chk, concrete=_concrete_outervar)
     outervar(chk, 3 if quick else 4)
     declaration_contracts(chk)
     # skeleton programs
@@ -140,7 +161,7 @@ def run(chk):
                         PROGS.append(tuple(m(v) for m in mod_pre) + prog + (("log", "x"), ("log", "y")))
     import gc; gc.collect(); gc.freeze()  # forked workers then touch (copy) far fewer pages
     with mp.get_context("fork").Pool(chk.jobs) as pool:
-        res = pool.map(_w, range(len(PROGS)), chunksize=128)
+        res = core.pmap(pool, _w, range(len(PROGS)), chunksize=128)
     per = {}
     for i, ok, info in res:
         chk.case(("prog", i))
@@ -153,7 +174,21 @@ def run(chk):
                     sub = t[2] if t[0] in ("let", "defn", "class") else t[1]
                     out.append(t[0] + ">" + shape(sub))
             return "+".join(o for o in out if o)
-        key = shape(prog)
+        def class_assigns_let_name(body, bound=frozenset(), in_class=False):
+            for t in body:
+                if t[0] == "let":
+                    if class_assigns_let_name(t[2], bound | {n for n, _ in t[1]}, in_class):
+                        return True
+                elif t[0] == "class":
+                    if class_assigns_let_name(t[2], bound, True):
+                        return True
+                elif t[0] in ("fn", "defn", "def"):
+                    if class_assigns_let_name(t[2] if t[0] != "fn" else t[1], bound, False):
+                        return True
+                elif in_class and ((t[0] == "setv" and t[1] in bound) or (t[0] == "bind" and t[2] in bound)):
+                    return True
+            return False
+        key = shape(prog) + (" (a class body assigns a name bound by an enclosing let)" if class_assigns_let_name(prog) else "")
         st = per.setdefault(key, [0, None])
         st[0] += 1
         if not ok and st[1] is None:
